@@ -16,7 +16,7 @@ if [ "${MUTEST_BUILD:-1}" = 1 ]; then
 fi
 det=1
 for p in "$@"; do
-  out=$(/verif/bin/emcheck -property "$p" -repo "$T/repo" -verif "$T/verif" 2>&1)
+  out=$(${EMCHECK:-/verif/bin/emcheck} -property "$p" -repo "$T/repo" -verif "$T/verif" 2>&1)
   if echo "$out" | grep -q '^VIOLATION'; then
     det=0
     echo "DETECTED by $p: $(echo "$out" | grep -A2 '^VIOLATION' | sed -n 2,3p | tr '\n' ' ' | cut -c1-400)"
